@@ -84,7 +84,7 @@ def main(run):
                 "SklearnWrapper and TorchWrapper; RiverWrapper over dict / float / int / bool / string-label outputs with growing label "
                 "sets; results compared with a reference canonicaliser written from the statement; dict-vs-list agreement; with "
                 "feature_names every permutation of the key order gives the identical result and the recorded array that reached "
-                "the model has exactly those columns in that order; list/tuple/deque batches; dispatch sweep over every "
+                "the model has exactly those columns in that order; list/tuple/deque batches; one long-lived wrapper object over outputs of changing width and batches of 255..4097 rows; dispatch sweep over every "
                 "constructible sklearn estimator / river model with a predict method and torch modules; evaluations = wrapper calls "
                 "judged; non-trivial = distinct (wrapper, shape, dtype, n, c, input form) cases")
     run.assumptions = ["batch outputs are indexable by row (functions that squeeze away the row axis are used with dict input only)"]
